@@ -66,12 +66,21 @@ pub struct Log {
 
 fn op_name(req: &str) -> String {
     // first element inside <rpc …>
-    let Some(i) = req.find("<rpc") else { return "?".into() };
+    let Some(i) = req.find("<rpc") else {
+        return "?".into();
+    };
     let rest = &req[i..];
-    let Some(j) = rest.find('>') else { return "?".into() };
+    let Some(j) = rest.find('>') else {
+        return "?".into();
+    };
     let inner = &rest[j + 1..];
-    let Some(k) = inner.find('<') else { return "?".into() };
-    inner[k + 1..].chars().take_while(|c| c.is_alphanumeric() || *c == '-').collect()
+    let Some(k) = inner.find('<') else {
+        return "?".into();
+    };
+    inner[k + 1..]
+        .chars()
+        .take_while(|c| c.is_alphanumeric() || *c == '-')
+        .collect()
 }
 
 const WARN: &str = "<rpc-error><error-type>application</error-type><error-tag>operation-failed</error-tag><error-severity>warning</error-severity><error-message>statement not found</error-message></rpc-error>";
@@ -83,7 +92,14 @@ fn reply(id: &str, body: &str) -> String {
 
 /// serve one session on `peer` until the client closes the session or the script closes the transport
 pub async fn serve(peer: mt::Peer, script: Script, log: Arc<Mutex<Log>>) {
-    peer.deliver(mt::hello(&[mt::CAP_BASE10, mt::CAP_JUNOS, "urn:ietf:params:netconf:capability:candidate:1.0"], 7));
+    peer.deliver(mt::hello(
+        &[
+            mt::CAP_BASE10,
+            mt::CAP_JUNOS,
+            "urn:ietf:params:netconf:capability:candidate:1.0",
+        ],
+        7,
+    ));
     let mut handled = 1usize; // index 0 is the client's hello
     loop {
         let sent = peer.wait_sent(handled + 1).await;
@@ -112,10 +128,16 @@ pub async fn serve(peer: mt::Peer, script: Script, log: Arc<Mutex<Log>>) {
         }
         let ok_body = match name.as_str() {
             "get-config" => {
-                let cfg = if req.contains("<running/>") { &script.running } else { &script.ephemeral };
+                let cfg = if req.contains("<running/>") {
+                    &script.running
+                } else {
+                    &script.ephemeral
+                };
                 format!("<data>{cfg}</data>")
             }
-            "load-configuration" => "<load-configuration-results><ok/></load-configuration-results>".to_string(),
+            "load-configuration" => {
+                "<load-configuration-results><ok/></load-configuration-results>".to_string()
+            }
             "commit-configuration" | "close-session" => "<ok/>".to_string(),
             _ => String::new(), // open-configuration, close-configuration: bare reply
         };
@@ -128,7 +150,11 @@ pub async fn serve(peer: mt::Peer, script: Script, log: Arc<Mutex<Log>>) {
                 }
             }
             Some(Fault::ErrWarnOk) => {
-                let ok = if name == "get-config" { ok_body.clone() } else { "<ok/>".to_string() };
+                let ok = if name == "get-config" {
+                    ok_body.clone()
+                } else {
+                    "<ok/>".to_string()
+                };
                 if name == "load-configuration" {
                     reply(&id, &format!("<load-configuration-results>{ERR}{WARN}<ok/></load-configuration-results>"))
                 } else {
@@ -144,12 +170,20 @@ pub async fn serve(peer: mt::Peer, script: Script, log: Arc<Mutex<Log>>) {
             }
             Some(Fault::WarnOk) => {
                 if name == "load-configuration" {
-                    reply(&id, &format!("<load-configuration-results>{WARN}<ok/></load-configuration-results>"))
+                    reply(
+                        &id,
+                        &format!(
+                            "<load-configuration-results>{WARN}<ok/></load-configuration-results>"
+                        ),
+                    )
                 } else {
                     reply(&id, &ok_body)
                 }
             }
-            Some(Fault::Malformed) => format!("<rpc-reply xmlns=\"{}\" message-id=\"{id}\"><unterminated]]>]]>", mt::BASE_NS),
+            Some(Fault::Malformed) => format!(
+                "<rpc-reply xmlns=\"{}\" message-id=\"{id}\"><unterminated]]>]]>",
+                mt::BASE_NS
+            ),
             Some(Fault::WrongId) => reply("999999", &ok_body),
             _ => reply(&id, &ok_body),
         };
@@ -184,6 +218,21 @@ pub fn running_with(n: usize) -> String {
     s
 }
 
+/// an ephemeral instance in which the given policies are installed (as an earlier run left them)
+pub fn installed_with(names: &[String]) -> String {
+    let mut s = format!("<configuration xmlns=\"{XNM}\"><policy-options>");
+    for n in names {
+        s.push_str(&format!(
+            "<policy-statement><name>{n}</name>\
+             <term><name>inet</name><from><family>inet</family><route-filter><address>203.0.113.0/25</address><choice-ident>prefix-length-range</choice-ident><choice-value>/25-/32</choice-value></route-filter></from><then><accept/></then></term>\
+             <term><name>inet6</name><from><family>inet6</family><route-filter><address>2001:db8:ffff::/48</address><choice-ident>prefix-length-range</choice-ident><choice-value>/48-/64</choice-value></route-filter></from><then><accept/></then></term>\
+             <then><reject/></then></policy-statement>"
+        ));
+    }
+    s.push_str("</policy-options></configuration>");
+    s
+}
+
 pub fn empty_config() -> String {
     format!("<configuration xmlns=\"{XNM}\"><policy-options></policy-options></configuration>")
 }
@@ -192,7 +241,10 @@ pub fn empty_config() -> String {
 pub fn running_with_exprs(stmts: &[(String, String)]) -> String {
     let mut s = format!("<configuration xmlns=\"{XNM}\"><policy-options>");
     for (name, expr) in stmts {
-        let e = expr.replace('&', "&amp;").replace('<', "&lt;").replace('"', "&quot;");
+        let e = expr
+            .replace('&', "&amp;")
+            .replace('<', "&lt;")
+            .replace('"', "&quot;");
         s.push_str(&format!(
             "<policy-statement xmlns:jcmd=\"http://yang.juniper.net/junos/jcmd\" jcmd:comment=\"/* bgpfu-fltr: {e} */\"><name>{name}</name><then><reject/></then></policy-statement>"
         ));
